@@ -238,7 +238,9 @@ fn kf_run(hh: bool, t: &[char]) -> (Vec<Vec<char>>, bool) {
     let mut b: Vec<char> = vec![];
     let mut ok = true;
     let fin_ok = |p: &Vec<Vec<char>>, b: &[char]| {
-        !(double_dot(b) && p.last().map_or(false, |s| wdl_seg(s))) && !(hh && p.is_empty() && is_wdl(b))
+        // ".." on a drive-letter-shaped last segment - unless it is the sole segment and a normalized drive letter
+        !(double_dot(b) && p.last().map_or(false, |s| wdl_seg(s)) && !(p.len() == 1 && is_nwdl(&p[0])))
+            && !(hh && p.is_empty() && is_wdl(b))
     };
     for &c in t {
         if is_sl(c) {
